@@ -45,6 +45,10 @@ def obligations(tier):
                      defs=["KIND=%d" % k], unwind=13, unwindset=["ABTD_spinlock_acquire.0:2", "ABTD_spinlock_acquire.1:2"], object_bits=11, backend="cadical", no_std=["--pointer-overflow-check"],
                      encodes=["ABTI_mem_alloc_nythread", "ABTI_mem_alloc_ythread_default", "ABTI_mem_alloc_ythread_mempool_desc", "ABTI_mem_alloc_desc", "ABTI_mem_free_thread", "ABTI_mem_free_desc", "ABTI_mem_pool_alloc", "ABTI_mem_pool_free"],
                      bounds="6 local pools with 2 blocks each, 3 blocks per bucket", symbolic="identity of the freeing agent"))
+    o.append(Obl("route_cancelled_at_pop", "C15/memroute.c", "unnamed tasklet allocated on ES0, last run on a solver-chosen stream (none/ES0/ES1), cancellation pending, popped by the scheduler of a solver-chosen stream: the real ABTI_ythread_schedule -> cancel handler -> ABTI_thread_free releases it into the pool of the stream that executes the release, never into another stream's (lock-less) local pool",
+                 real=["src/thread.c"], hooks=True, defs=["KIND=4"], unwind=13, unwindset=["ABTD_spinlock_acquire.0:2", "ABTD_spinlock_acquire.1:2"], object_bits=11, backend="cadical", no_std=["--pointer-overflow-check"],
+                 encodes=["ABTI_ythread_schedule", "ABTI_thread_handle_request", "ABTI_thread_handle_request_cancel", "ABTI_thread_terminate", "ABTI_thread_free", "ABTI_mem_free_thread", "ABTI_mem_pool_free"],
+                 bounds="6 local pools with 2 blocks each, 3 blocks per bucket", symbolic="stream the unit last ran on, stream that pops it"))
     o.append(Obl("create_many_user_stack", "C18/create_unit.c", "ABT_thread_create_many with an attribute that carries a user-supplied stack, with or without a handle array (symbolic): refused with ABT_ERR_INV_THREAD_ATTR, nothing created -- several live ULTs never share one stack",
                  defs=["WHICH=4"], unwind=4, unwindset=["ABTD_spinlock_acquire.0:2", "ABTD_spinlock_acquire.1:2"], object_bits=11, backend="cadical", no_std=["--pointer-overflow-check"],
                  restrict_fp=[("ABTI_ktable_free.function_pointer_call.1", ["thread_key_destructor_stackable_sched", "thread_key_destructor_migration"])],
